@@ -8,6 +8,7 @@ import SqlLineage.IO.Config
 import SqlLineage.IO.Graph
 import SqlLineage.IO.Sql
 import SqlLineage.IO.PathSec
+import SqlLineage.IO.Rename
 
 open Lean
 
@@ -23,7 +24,10 @@ def handlers : List (String × (Json → Except String Json)) := [
   ("dispatch", SqlLineage.IO.Sql.handleDispatch),
   ("path", SqlLineage.IO.PathSec.handleOne),
   ("pathbatch", SqlLineage.IO.PathSec.handleBatch),
-  ("pathlib", SqlLineage.IO.PathSec.handlePathlib)
+  ("pathlib", SqlLineage.IO.PathSec.handlePathlib),
+  ("rename", SqlLineage.IO.Rename.handleRename),
+  ("renamenames", SqlLineage.IO.Rename.handleNames),
+  ("renamerender", SqlLineage.IO.Rename.handleRoundTrip)
 ]
 
 def handleLine (line : String) : String :=
